@@ -71,6 +71,9 @@ impl GeneratedApp {
         } else {
             directory.to_path_buf()
         };
+        // Relative paths are computed against this directory further down,
+        // which requires it to be free of `.` and `..` components.
+        let pkg_directory = Self::normalize_lexically(&pkg_directory);
 
         Self::normalize_path_dependencies(&mut cargo_toml, &pkg_directory)?;
         Self::inject_app_into_workspace_members(&workspace, &pkg_directory, writer)?;
@@ -83,6 +86,25 @@ impl GeneratedApp {
         writer.persist_if_changed(&source_directory.join("lib.rs"), lib_rs.as_bytes())?;
 
         Ok(())
+    }
+
+    /// Resolve `.` and `..` components without touching the filesystem.
+    fn normalize_lexically(path: &Path) -> PathBuf {
+        use std::path::Component;
+
+        let mut normalized = PathBuf::new();
+        for component in path.components() {
+            match component {
+                Component::CurDir => {}
+                Component::ParentDir => {
+                    if !normalized.pop() {
+                        normalized.push(component);
+                    }
+                }
+                c => normalized.push(c),
+            }
+        }
+        normalized
     }
 
     /// All path dependencies should be relative to the root of the workspace in which
